@@ -17,6 +17,7 @@ t1).  Every drange call is compared with a reference that never calls pyg_base:
 """
 import bisect
 import datetime
+import numpy as np
 import re
 import signal
 import time
@@ -53,7 +54,7 @@ DAY = datetime.timedelta(1)
 ZERO = datetime.timedelta(0)
 K = [1, -1, 2, -2, 3, -3, 5, -5]
 NS7 = [n for k in range(1, 8) for n in (k, -k)]
-COMPOUND = ['1m1d', '-1m-1d', '1w-1d', '1d12h', '-1d-12h', '2b1d']
+COMPOUND = ['1m1d', '-1m-1d', '1w-1d', '1d12h', '-1d-12h', '2b1d', '-1d12h', '-1d1w', '-1w1d', '1d-36h']          # (a sign belongs to its own piece only)
 ALT = ['+1d', '2D', '+3b', '-2B', '-1W', '+1w-1D', '+1m', '-1M', '1M1D']          # other spellings of bumps of the alphabet
 ALT_LONG = ['+1m', '-1M', '1M1D', '+1Y', '-2Q']
 TODS_DAY = [[0, 0, 0, 0], [9, 30, 0, 0], [9, 30, 0, 5]]            # the last one carries microseconds (rrule drops them)
@@ -119,6 +120,9 @@ def bumps_for(group, month_ok):
             bs.append(Bump('int:%d' % n, 'int', n, [('int', n)], eqkey=n))
             bs.append(Bump('timedelta(days=%d)' % n, 'td', datetime.timedelta(days=n), [('td', n)], eqkey=n))
             bs.append(_str_bump('%dd' % n, eqkey=n))
+            if abs(n) in (1, 3):
+                bs.append(Bump('np.int64(%d)' % n, 'int', np.int64(n), [('int', n)], eqkey=n))          # numpy integers are integers
+                bs.append(Bump('np.int32(%d)' % n, 'int', np.int32(n), [('int', n)], eqkey=n))
         for u in 'wb':
             for k in K:
                 bs.append(_str_bump('%d%s' % (k, u)))
